@@ -31,8 +31,8 @@ CONF = dict(
  'by untouched content with every strictly-early success present, no goroutine left once all calls have returned, guard refuses exactly the calls made while '
  'one is in progress and is released on return. The model is tied to the Go code through observable outcomes only (not through its internal states).'),
     level_note=('Trusted: Coq kernel, the hand-written LTS (validated every run by reproducing what the real code did under synctest), extraction, harness, synctest. The tie is '
- 'through outcomes (return time, slice, goroutine counts, panics), as DESIGN section 6 states; the guard clause is proved for untimed call/return histories and '
- 'enforced on timed histories by the oracle. No axioms (Closed under the global context).'),
+ 'through outcomes (return time, slice, goroutine counts, panics), as DESIGN section 6 states; the guard clause is proved for all call/return histories and the timed '
+ 'guard oracle is proved to accept every timed history of the guard model. No axioms (Closed under the global context).'),
     explanation=('collectMeasurements/MeasureClockOffsets as a transition system; all schedules covered by invariants; real code run under virtual time and matched against '
  'a model schedule plus the property oracle'),
     timeout_quick=600,
